@@ -13,7 +13,7 @@ from vf import bfs, dumps, env, par, tasks
 from vf.report import Ctx, Partial
 
 SUBMITS = [(0, 0, "pos"), (0, 0, "kw"), (0, 1, "pos"), (1, 0, "kw"), (1, 1, "pos")]
-ALPHABET = [("submit", *s) for s in SUBMITS] + [("claim",), ("finish",)]
+ALPHABET = [("submit", *s) for s in SUBMITS] + [("claim",), ("finish",), ("requeue",)]
 
 CONFIGS = [
     dict(mode="DISABLED", keys=(), raise_=False),
@@ -90,6 +90,16 @@ class Impl(bfs.System):
                 return ("raise", type(e).__name__)
             self.claimed.extend(got)
             return ("claimed", tuple(self.ren(i.invocation_id) for i in got))
+        if op[0] == "requeue":
+            # the runner gives the oldest invocation it holds back (reroute): available again, but no longer REGISTERED
+            if not self.claimed:
+                return ("requeued", None)
+            inv = self.claimed.pop(0)
+            try:
+                self.app.orchestrator.reroute_invocations({inv.invocation_id}, self.ctx)
+            except Exception as e:  # noqa: BLE001
+                return ("raise", type(e).__name__)
+            return ("requeued", self.ren(inv.invocation_id))
         if op[0] == "finish":
             if not self.claimed:
                 return ("finished", None)
@@ -160,12 +170,20 @@ class Model(bfs.System):
             got = []
             while self.q and not got:
                 i = self.q.pop(0)
-                if self.inv[i][1] == "REGISTERED":
+                if self.inv[i][1] in ("REGISTERED", "REROUTED"):
                     self.inv[i][1] = "PENDING"
                     self.inv[i][2] += 1
                     got.append(i)
             self.claimed.extend(got)
             return ("claimed", tuple(got))
+        if op[0] == "requeue":
+            if not self.claimed:
+                return ("requeued", None)
+            i = self.claimed.pop(0)
+            self.inv[i][1] = "REROUTED"
+            self.inv[i][2] += 1
+            self.q.append(i)
+            return ("requeued", i)
         if op[0] == "finish":
             if not self.claimed:
                 return ("finished", None)
